@@ -9,7 +9,7 @@ CHECK = {
              'no read through a held view ever fails; after settling with all views released the set of *.idx files in the index directory equals the set of files the service serves and the use counts add up to the number of served files. Non-trivial: a view or a parked job held files across a delivered merge that replaced them. '
              'Merge fault campaign (TestVerifC13MergeFault): 2-4 generated index files with overlapping stream ids are opened, one of them is truncated on disk at a generated offset, index.Merge is called on the run the way the merge job does; when it reports failure the directory must hold exactly the inputs (the service keeps serving them), when it succeeds exactly the returned files are new. Non-trivial: the merge failed.'),
     "level_text": 'invariant checked after every step of generated histories with generated completion orders; finds lost invalidations / reference-count and snapshot errors that need a specific interleaving; no absence claim',
-    "level_note": 'reads = AllStreams, Stream, Data, Packets, three searches; a background job that uses a closed index file is noticed through the service's log, which is captured per scenario and searched for 'file already closed' / 'bad file descriptor'',
+    "level_note": 'reads = AllStreams, Stream, Data, Packets, three searches; a background job that uses a closed index file is noticed through the log of the service, which is captured per scenario and searched for "file already closed" / "bad file descriptor"',
     "assumptions": [],
     "extra_builds": [{"pkg": "internal/verif/convbin", "out": "convbin"}],
     "campaigns": [
